@@ -2841,7 +2841,11 @@ impl Sim {
             match next {
                 Ok((snapshot, _)) => {
                     let (set, _) = snapshot_to_set(&snapshot);
-                    let in_cleanup = site.starts_with("store.cleanup");
+                    // Cleanup, and the status file written after it, come
+                    // when the run's work is done: what follows is simply
+                    // the next run.
+                    let in_cleanup = site.starts_with("store.cleanup")
+                        || site.starts_with("store.status");
                     let relaxed_ok = in_cleanup && {
                         set.origins.iter().all(|i| {
                             reference.origins.contains(i)
